@@ -142,10 +142,13 @@ func c16TxOne(t *rapid.T, family string, fork string, onlyCall bool) *Scenario {
 }
 
 func genC16Tx(t *rapid.T) *Scenario {
-	fams := []string{"precompile", "precompile", "prog", "prog", "tree", "eips"}
+	fams := []string{"precompile", "precompile", "prog", "prog", "tree", "eips", "stdpre"}
 	fam := fams[uniform(t, 0, len(fams)-1, "family")]
 	if fam == "eips" {
 		return genC16Eips(t)
+	}
+	if fam == "stdpre" {
+		return genC16StdPre(t)
 	}
 	sc := c16TxOne(t, fam, "", false)
 	ex := c16TxExtra{Reps: 4, Family: fam, HostValue: rapid.SliceOfN(rapid.Byte(), 0, 40).Draw(t, "hostvalue")}
@@ -238,6 +241,49 @@ func genC16Eips(t *rapid.T) *Scenario {
 	ex := c16TxExtra{Reps: 3, Family: "eips", HostValue: []byte{1}}
 	o := GenProgScenario(t, ProgCfg{Fork: fork, Extra: extra, Contracts: 1, MaxSnips: 3, NoArtelaPre: true})
 	ex.Other = o
+	sc.Extra, _ = json.Marshal(ex)
+	return sc
+}
+
+// a valid ECRECOVER input (hash, v, r, s) from the reference test vectors
+var ecrecoverVector = common.FromHex("18c547e4f7b0f325ad1e56f57e26c745b09a3e503d86e00e5255ff7f715d3d1c" +
+	"000000000000000000000000000000000000000000000000000000000000001c" +
+	"73b1693892219d736caba55bdb67216e485557ea6b6af75f37096c9aa6a5a75f" +
+	"eeb940b1d03b21e36b0e47e79769f095fe2ab855bd91e3a38756b7d75a9c4549")
+
+// genC16StdPre: T calls a standard precompile with a TRUNCATED input (the missing
+// bytes are zeros by specification); the unrelated execution on another EVM calls the
+// same precompile with a full-size input. The precompile objects are package-level
+// singletons: nothing an earlier call leaves in them may complete a later input.
+func genC16StdPre(t *rapid.T) *Scenario {
+	type pre struct {
+		addr uint64
+		full int
+	}
+	p := []pre{{1, 128}, {1, 128}, {6, 128}, {7, 96}, {8, 192}, {9, 213}, {5, 160}}[uniform(t, 0, 6, "stdp")]
+	full := rapid.SliceOfN(rapid.Byte(), p.full, p.full).Draw(t, "stdfull")
+	if p.addr == 1 {
+		full = append([]byte{}, ecrecoverVector...)
+	}
+	cut := []int{0, 32, 64, 96, 1, 31, 33, p.full - 1}[uniform(t, 0, 7, "stdcut")]
+	if cut > p.full {
+		cut = p.full / 2
+	}
+	fork := ForkNames[uniform(t, 7, 12, "stdfork")]
+	mk := func(in []byte, self common.Address) *Scenario {
+		a := NewAsm()
+		a.MstoreBytes(0, in)
+		a.Push(0x40).Push(0x300).Push(len(in)).Push(0).Push(0).Push(p.addr).Push(200000).Op(CALL).Push(1).Op(SSTORE)
+		a.Op(RETURNDATASIZE).Push(2).Op(SSTORE)
+		a.Push(0x300).Op(MLOAD).Push(3).Op(SSTORE)
+		a.Push(0x320).Op(MLOAD).Push(4).Op(SSTORE).Op(STOP)
+		sc := &Scenario{Fork: fork}
+		sc.Accounts = []Account{{Addr: self, Nonce: 1, Code: a.Bytes()}, {Addr: EOAAddr, Balance: hexU64(1 << 40), Nonce: 1}}
+		sc.Invs = []Invocation{{Kind: "call", Origin: EOAAddr, Caller: EOAAddr, To: self, Gas: 1_000_000}}
+		return sc
+	}
+	sc := mk(full[:cut], ContractAddrs[0])
+	ex := c16TxExtra{Reps: 3, Family: "stdpre", HostValue: []byte{1}, Other: mk(full, ContractAddrs[1])}
 	sc.Extra, _ = json.Marshal(ex)
 	return sc
 }
